@@ -135,13 +135,21 @@ type c07Htlc struct {
 	target uint64
 	hash   [32]byte
 
-	exists    bool // circuit known to the switch
-	addEpoch  int
-	out       *CircuitKey
-	closed    bool // a response was accepted in this switch lifetime
-	inOutBox  bool // add packet in the outgoing mailbox (not acked)
-	respBox   bool // response packet in the incoming mailbox (not acked)
-	resolved  bool // the incoming link durably consumed a response
+	exists   bool // circuit known to the switch
+	addEpoch int
+	out      *CircuitKey
+	closed   bool // a response was accepted in this switch lifetime
+	inOutBox bool // add packet in the outgoing mailbox (not acked)
+	respBox  bool // response packet in the incoming mailbox (not acked)
+	resolved bool // the incoming link durably consumed a response
+
+	// ref is the position of the ADD in the incoming link's forwarding
+	// package (set by processRemoteAdds in a real link); acked is the
+	// link's bookkeeping: the ADD is acked in the package only by
+	// committing a response that carries this very reference. Un-acked
+	// ADDs are replayed into the switch when the link restarts.
+	ref       channeldb.AddRef
+	acked     bool
 	responded bool // the remote peer answered (for replays)
 
 	handed      int
@@ -163,6 +171,10 @@ type c07World struct {
 	links [c07NumChans + 1]*c07Link
 	rec   *c07Recorder
 	ntf   *c07Notifier
+
+	// dev knob: skip the direct sourceRef assertion so that only the
+	// forwarding-package bookkeeping + history invariant remain
+	noRefCheck bool
 
 	// locally initiated payments
 	nextLocal uint64
@@ -443,6 +455,22 @@ func (w *c07World) settle(exp *c07Expect) error {
 				return fmt.Errorf("response of type %T", pkt.htlc)
 			}
 			resp = append(resp, c07KeyStr(in))
+
+			// The response must reference the original ADD, or
+			// the incoming link cannot ack it in its forwarding
+			// package: failAddPacket copies the ADD's sourceRef,
+			// closeCircuit refills it from the circuit's AddRef
+			// for responses of the remote peer, and the mailbox
+			// must copy it for the ADDs it gives up on (FailAdd).
+			if h := w.htlcs[in]; h != nil && !w.noRefCheck {
+				if pkt.sourceRef == nil || *pkt.sourceRef != h.ref {
+					return fmt.Errorf("response for HTLC %s "+
+						"carries sourceRef %v, the ADD's is "+
+						"%v: the incoming link can not ack "+
+						"the ADD and will replay it",
+						c07KeyStr(in), pkt.sourceRef, h.ref)
+				}
+			}
 		}
 	}
 
@@ -454,6 +482,12 @@ func (w *c07World) settle(exp *c07Expect) error {
 				continue
 			}
 			h.handed++
+			if h.resolved {
+				return fmt.Errorf("AT-MOST-ONCE: HTLC %s handed "+
+					"to an outgoing link after a response "+
+					"for it was committed on the incoming "+
+					"link", in)
+			}
 			if h.handed > 1 {
 				return fmt.Errorf("AT-MOST-ONCE: HTLC %s handed "+
 					"to an outgoing link %d times", in, h.handed)
@@ -527,6 +561,10 @@ func (w *c07World) checkWorld() error {
 					"for %s", c07KeyStr(*h.out), c07KeyStr(in))
 			}
 		}
+		if in.ChanID.ToUint64() != 0 && c.AddRef != h.ref {
+			return fmt.Errorf("circuit %s: AddRef %v, the ADD's is %v",
+				c07KeyStr(in), c.AddRef, h.ref)
+		}
 		if c.LoadedFromDisk != (h.addEpoch < w.epoch) {
 			return fmt.Errorf("circuit %s: LoadedFromDisk=%v in "+
 				"epoch %d (added in %d)", c07KeyStr(in),
@@ -585,7 +623,10 @@ func (w *c07World) checkWorld() error {
 // ---------------------------------------------------------------------------
 
 func (w *c07World) addPacket(h *c07Htlc) *htlcPacket {
+	ref := h.ref
+
 	return &htlcPacket{
+		sourceRef:      &ref,
 		incomingChanID: h.in.ChanID,
 		incomingHTLCID: h.in.HtlcID,
 		outgoingChanID: lnwire.NewShortChanIDFromInt(h.target),
@@ -599,12 +640,14 @@ func (w *c07World) addPacket(h *c07Htlc) *htlcPacket {
 	}
 }
 
-// unresolved returns the HTLCs of incoming link c the link would replay.
+// unresolved returns the ADDs of incoming link c that are not acked in its
+// forwarding packages, i.e. what the link replays when it restarts
+// (resolveFwdPkgs). On a correct switch acked == resolved.
 func (w *c07World) unresolved(c int) []*c07Htlc {
 	var hs []*c07Htlc
 	for _, in := range w.order {
 		h := w.htlcs[in]
-		if in.ChanID.ToUint64() == uint64(c) && !h.resolved {
+		if in.ChanID.ToUint64() == uint64(c) && !h.acked {
 			hs = append(hs, h)
 		}
 	}
@@ -675,6 +718,12 @@ func (w *c07World) actForward(t *rapid.T) error {
 				target: target,
 				hash: c07Hashes[rapid.IntRange(0, 2).Draw(t,
 					"hash")],
+				// unique per ADD: (commit height, index in pkg)
+				ref: channeldb.AddRef{
+					Height: uint64(c)*1000 + w.ls[c].nextIn,
+					Index: uint16(rapid.IntRange(0, 5).Draw(t,
+						"refIndex")),
+				},
 			}
 			w.ls[c].nextIn++
 			w.htlcs[h.in] = h
@@ -831,11 +880,11 @@ func (w *c07World) actOutProcess(t *rapid.T) error {
 		}
 		h := w.htlcs[in]
 		switch rapid.IntRange(0, 9).Draw(t, "outDecision") {
-		case 8:
+		case 7:
 			// leave it in the mailbox
 			desc = append(desc, c07KeyStr(in)+"=leave")
 
-		case 9:
+		case 8, 9:
 			// channel.AddHTLC failed: fail back through the switch
 			w.mailbox(c).FailAdd(pkt)
 			h.inOutBox = false
@@ -1056,11 +1105,13 @@ func (w *c07World) actInCommit(t *rapid.T) error {
 		return len(w.boxResps(c)) > 0
 	})
 	var keys []CircuitKey
+	refs := make(map[CircuitKey]*channeldb.AddRef)
 	for _, pkt := range w.boxResps(c) {
 		if rapid.IntRange(0, 3).Draw(t, "consume") == 0 {
 			continue
 		}
 		keys = append(keys, pkt.inKey())
+		refs[pkt.inKey()] = pkt.sourceRef
 	}
 	if len(keys) > 0 {
 		if err := w.sw.circuits.DeleteCircuits(keys...); err != nil {
@@ -1081,6 +1132,14 @@ func (w *c07World) actInCommit(t *rapid.T) error {
 		h.exists, h.out, h.closed = false, nil, false
 		h.respBox = false
 		h.resolved = true
+		// channel.SettleHTLC/FailHTLC(.., pkt.sourceRef, ..): the
+		// commitment that carries the response acks exactly the
+		// referenced ADD.
+		if r := refs[in]; r != nil && *r == h.ref {
+			h.acked = true
+		} else {
+			w.label("in:resolved_without_ack")
+		}
 		w.label("in:resolved")
 		desc = append(desc, c07KeyStr(in))
 	}
@@ -1178,12 +1237,13 @@ func TestVerifC07Switch(t *testing.T) {
 		defer os.RemoveAll(dir)
 
 		w := &c07World{
-			dir:      dir,
-			rec:      &c07Recorder{},
-			ntf:      &c07Notifier{sig: make(chan struct{}, 1)},
-			htlcs:    make(map[CircuitKey]*c07Htlc),
-			seenResp: make(map[*htlcPacket]bool),
-			labels:   make(map[string]bool),
+			dir:        dir,
+			rec:        &c07Recorder{},
+			ntf:        &c07Notifier{sig: make(chan struct{}, 1)},
+			noRefCheck: vstats.EnvInt("VERIF_C07_NOREFCHECK", 0) == 1,
+			htlcs:      make(map[CircuitKey]*c07Htlc),
+			seenResp:   make(map[*htlcPacket]bool),
+			labels:     make(map[string]bool),
 		}
 		for c := 1; c <= c07NumChans; c++ {
 			w.ls[c] = &c07LinkState{
